@@ -515,7 +515,7 @@ def replay(ctx):
     report_scope(ctx, stats, [res], label="replay")
     meta = json.load(open(out + ".meta.json"))
     for pid, m in meta.items():
-        print("replay scope %s: %s" % (pid, "REJECTED" if any(r["id"] == pid for r in res.rejects) else "accepted"))
+        print("replay scope %s: %s" % (pid, "REJECTED" if any(r["id"] == pid and not r["who"].startswith("corrupt") for r in res.rejects) else "accepted"))
 
 
 def work_replay_bind(job):
